@@ -61,6 +61,7 @@ class C06(SpecValueCheck):
         p.kinds = [k for k in PER_KINDS] + ['INTEGER'] * 4 + ['ENUMERATED', 'REAL', 'BIT STRING', 'OCTET STRING']
         p.real_wc = True
         p.real_wc_near = True
+        p.stack_rate = 20
         p.root2 = True
         return p
 
@@ -70,9 +71,24 @@ class C06(SpecValueCheck):
         return values.ValCfg(numeric_enums=shard['ne'], big=shard.get('big', False), nan=False, neg_zero=False,
                              max_len=40, dirty_bits=False)
 
+    def default_modulo_trailing_bits(self, x):
+        """a DEFAULT member of a named-bit BIT STRING type whose value ends in a zero bit: it may equal the default only
+        modulo trailing zero bits, and whether such a component is written is the sender's option in BASIC-OER (the
+        library writes it unless the bit count also agrees)"""
+        for n in common.walk_values(x.spec, x.ty, x.modname, x.v):
+            if n.member is not None and n.member.has_default and n.r.base.kind == 'BIT STRING' \
+                    and n.r.base.named_bits and isinstance(n.value, tuple):
+                data, nbits = n.value
+                if nbits > 0 and not (data[(nbits - 1) // 8] >> (7 - (nbits - 1) % 8)) & 1:
+                    return True
+        return False
+
     def oracle(self, x):
         e = x.encode()
         if e is None:
+            return
+        if self.default_modulo_trailing_bits(x):
+            x.rec.cls('excluded:default-named-bits-trailing-zero(sender-option)')
             return
         e = bytes(e)
         x.rec.ev()
